@@ -26,6 +26,9 @@ def run(tier, argv):
     raws2 = work.path("gen-shared2.txt")
     r = vlib.tlc(work, "Life", "Life.cfg", consts={"MaxLen": Ls, "World": '"shared2"'}, to_file=raws2, timeout=6000, heap="24g")
     rep.add_tlc(r, "Life, shared2 world: all histories of length %s over a root naming @A and a root inheriting from @A and @B (same type objects)" % Ls)
+    raws3 = work.path("gen-shared3.txt")
+    r = vlib.tlc(work, "Life", "Life.cfg", consts={"MaxLen": Ls, "World": '"shared3"'}, to_file=raws3, timeout=6000, heap="24g")
+    rep.add_tlc(r, "Life, shared3 world: all histories of length %s over a root with KeysAreOptionalByDefault and a root without it (same type object)" % Ls)
     rawd = work.path("gen-docs.txt")
     Ld = "4" if quick else "5"
     r = vlib.tlc(work, "Life", "Life.cfg", consts={"MaxLen": Ld, "World": '"docs"'}, to_file=rawd, timeout=6000, heap="24g")
@@ -33,7 +36,7 @@ def run(tier, argv):
     cases, docs = work.path("cases.ndjson"), work.path("docs.json")
     n = 0
     with open(cases, "w") as f:
-        for src in (raw, raws, raws2, rawd):
+        for src in (raw, raws, raws2, raws3, rawd):
             for l in vlib.tagged_file(src, "@@CASE"):
                 f.write(l + "\n")
                 n += 1
@@ -139,6 +142,14 @@ def maporder_stage(work, rep, hbin, quick):
         for l in vlib.tagged_file(raw, "@@CASE"):
             f.write(l + "\n")
     jobs.append(("graph", lambda out, gc=gc: ["c09replay", "-cases", gc, "-out", out]))
+    raw = work.path("mo-graph4.txt")
+    r = vlib.tlc(work, "GenGraph", "GenGraph.cfg", consts={"NTypes": "2", "Level": "4"}, to_file=raw, timeout=3000, heap="12g")
+    rep.add_tlc(r, "GenGraph key-shortcut / rule-set family (case file for the map-order runs)")
+    gc4 = work.path("mo-graph4.ndjson")
+    with open(gc4, "w") as f:
+        for l in vlib.tagged_file(raw, "@@CASE"):
+            f.write(l + "\n")
+    jobs.append(("graph4", lambda out, gc4=gc4: ["c09replay", "-cases", gc4, "-out", out]))
     bad = []
     runs = 0
     for label, mk in jobs:
